@@ -24,7 +24,7 @@ Definition kind_matches (f : decfact) : bool :=
   | KCont => dclass_eqb (df_class f) CContainerTwin && negb (df_accerr f)
   | KLeaf => negb (dclass_eqb (df_class f) CContainerBody)
   end &&
-  (if dclass_eqb (df_class f) CPureTwin || dclass_eqb (df_class f) CRawBody
+  (if dclass_eqb (df_class f) CPureTwin || dclass_eqb (df_class f) CRawBody || dclass_eqb (df_class f) CBodyFn
    then match std_kind (df_key f) with KLeaf => true | _ => false end else true).
 Lemma kinds_match : forallb kind_matches c03_decoder_facts = true.
 Proof. vm_compute. reflexivity. Qed.
@@ -35,9 +35,9 @@ Theorem all_pairs_classified :
        match df_class f with
        | CDelegating => df_relative f = true
                         \/ In (df_r f) c03_delegating_nonrelative_proved \/ In (df_r f) c03_delegating_nonrelative_explored
-       | CContainerTwin => df_accerr f = false \/ In (df_r f) c03_twin_accerr_explored
+       | CContainerTwin => True
        | CContainerBody => std_kind k = KContBody (df_accerr f)
-       | CPureTwin | CRawBody => std_kind k = KLeaf
+       | CPureTwin | CRawBody | CBodyFn => std_kind k = KLeaf
        | CSeparate => In (df_r f) c03_separate_proved \/ In (df_r f) c03_separate_explored
        end).
 Proof.
@@ -50,10 +50,12 @@ Proof.
   unfold dec_ok in Hok. destruct (df_class f) eqn:Ec.
   - apply orb_prop in Hok. destruct Hok as [Hok|Hok]; [|right; right; apply SM; exact Hok].
     apply orb_prop in Hok. destruct Hok as [Hok|Hok]; [left; exact Hok|right; left; apply SM; exact Hok].
-  - apply orb_prop in Hok. destruct Hok as [Hok|Hok]; [left; destruct (df_accerr f); [discriminate|reflexivity]|right; apply SM; exact Hok].
+  - exact I.
   - unfold kind_matches in Hkm. rewrite Hf in Hkm. rewrite Ec in Hkm. apply andb_prop in Hkm. destruct Hkm as [Hk1 _].
     destruct (std_kind k) as [| |a]; cbn in Hk1; try discriminate.
     apply Bool.eqb_prop in Hk1. rewrite Hk1. reflexivity.
+  - unfold kind_matches in Hkm. rewrite Hf in Hkm. rewrite Ec in Hkm. apply andb_prop in Hkm. destruct Hkm as [_ Hk2].
+    cbn in Hk2. destruct (std_kind k) as [| |a]; try discriminate. reflexivity.
   - unfold kind_matches in Hkm. rewrite Hf in Hkm. rewrite Ec in Hkm. apply andb_prop in Hkm. destruct Hkm as [_ Hk2].
     cbn in Hk2. destruct (std_kind k) as [| |a]; try discriminate. reflexivity.
   - unfold kind_matches in Hkm. rewrite Hf in Hkm. rewrite Ec in Hkm. apply andb_prop in Hkm. destruct Hkm as [_ Hk2].
@@ -65,6 +67,7 @@ Theorem all_encoders_classified :
   forall f, In f c03_encoder_facts ->
     match ef_class f with
     | EDelegating | EContainer | EHeader => True
+    | EPrelude => In (ef_type f) c03_enc_prelude_proved
     | ETwin => In (ef_type f) c03_enc_twin_proved \/ In (ef_type f) c03_enc_twin_explored
     | ESeparate => In (ef_type f) c03_enc_separate_proved \/ In (ef_type f) c03_enc_separate_explored
     end.
@@ -72,8 +75,19 @@ Proof.
   intros f Hin. pose proof all_encoders_ok as Hok. rewrite forallb_forall in Hok. specialize (Hok f Hin).
   assert (SM : forall x l, smem x l = true -> In x l).
   { intros x l H. unfold smem in H. apply existsb_exists in H. destruct H as [y [Hy He]]. apply String.eqb_eq in He. subst. exact Hy. }
-  unfold enc_ok in Hok. destruct (ef_class f); try exact I;
+  unfold enc_ok in Hok. destruct (ef_class f); try exact I; try (apply SM; exact Hok);
     (apply orb_prop in Hok; destruct Hok as [Hok|Hok]; [left|right]; apply SM; exact Hok).
+Qed.
+
+(* Encode with an idempotent prelude that EncodeSW repeats: same final state, same bytes, provided Size() covers what is written *)
+Theorem enc_prelude_agree {S} (p : S -> S) (size : S -> N) (out : S -> option (list N)) (cap : N) (s : S) :
+  (forall x, p (p x) = p x) ->
+  (forall bs, out (p s) = Some bs -> N.of_nat (List.length bs) <= size (p s) /\ N.of_nat (List.length bs) <= cap) ->
+  enc_prelude_w p size out s = enc_prelude_sw p cap out s.
+Proof.
+  intros Hp H. unfold enc_prelude_w, enc_prelude_sw. rewrite Hp. f_equal.
+  destruct (out (p s)) as [bs|] eqn:E; [|reflexivity]. destruct (H bs eq_refl) as [H1 H2].
+  unfold sw_run. apply N.leb_le in H1. apply N.leb_le in H2. rewrite H1, H2. reflexivity.
 Qed.
 
 (* Encode written as a call of EncodeSW produces what EncodeSW produces, provided Size() is at least the number of bytes
